@@ -625,7 +625,10 @@ def _driver(w, script, who):
                 w.ops.append(rec)
             elif op == "sigint":
                 w.ops.append({"op": "sigint", "by": who, "t_call": w.now()})
-                os.kill(os.getpid(), signal.SIGINT)
+                # to the main thread, as a terminal's Ctrl-C practically always is: a process-directed signal that the kernel happens to
+                # route to another thread only sets CPython's flag and does not interrupt the main thread's select() - asyncio.run
+                # installs its handler without a wake-up descriptor, so an otherwise idle asyncio loop would not notice it
+                signal.pthread_kill(threading.main_thread().ident, signal.SIGINT)
             elif op == "accept2":
                 from cobald.daemon.runners.service import ServiceRunner
 
@@ -848,8 +851,14 @@ def _child(scenario, wfd):
     def watchdog():
         if not done.wait(bound):
             result["hang"] = True
-            result["hang_threads"] = {str(t.ident): "".join(traceback.format_stack(sys._current_frames()[t.ident])[-3:])[-500:]
+            full = bool(os.environ.get("VERIF_FULL_STACKS"))
+            result["hang_threads"] = {str(t.ident): "".join(traceback.format_stack(sys._current_frames()[t.ident])[-(40 if full else 3):])[-(8000 if full else 500):]
                                       for t in threading.enumerate() if t.ident in sys._current_frames()}
+            if full:
+                try:
+                    result["asyncio_tasks"] = [repr(t)[:600] for loop_ in [getattr(getattr(w.runner, "_meta_runner", w.runner), "_runners", {})] for t in []]
+                except Exception:  # noqa
+                    pass
             result["episodes"] = result.get("episodes", [])
             try:
                 dump()
